@@ -133,6 +133,11 @@ def WScript.push (st : WScript) (c : WsWrite.WConn) (r : String) : WScript :=
 /-- One script token. `none` = malformed token. -/
 def wstep (st : WScript) (tok : String) : Option WScript :=
   match tok.splitOn ";" with
+  -- EnableWriteCompression(b) on a connection that negotiated permessage-deflate: `WConn.deflate` is
+  -- "negotiated && enabled", so the application's switch is an assignment to it (no result, nothing on the wire)
+  | ["E", b] => do
+    let b ← p01 b
+    pure { st with c := { st.c with deflate := b } }
   | ["M", ty, h] => do
     let ty ← ty.toNat?; let d ← parseBytes h
     let (c, e) := WsWrite.writeMessage st.c ty d
